@@ -697,7 +697,15 @@ def unit_conc(args):
             return run_scheduled(ns, fam, prog, ch)
 
         starts = [None] + tids[1:]
+        hung = [False]      # a thread got stuck outside the instrumented locks: stop exploring this program
+
+        def stuck(run):
+            if run.get("deadlock") and "scheduler timeout" in str(run["deadlock"]):
+                hung[0] = True
+            return hung[0]
         for st in starts:
+            if hung[0]:
+                break
             # (deadlocks depend on the order of lock acquisitions only: the mirror-image programs
             # are explored at acquisition points, which makes a deeper bound affordable)
             kinds = ("acq",) if profile == "cross" else None
@@ -708,7 +716,9 @@ def unit_conc(args):
                     if sig not in found:
                         found[sig] = dict(props=list(props), msg=msg, fam=fam.short, kind="conc", sig=sig, ops=None,
                                           extra=dict(prog=repr(prog), switches=list(switches), start=st, fam_index=fam_index))
-        if profile in ("writers", "buffered"):
+                if stuck(run):
+                    break
+        if profile in ("writers", "buffered") and not hung[0]:
             # one more preemption, at lock transitions only (cheap: few such points): races in the
             # locking itself need a thread to be interrupted twice
             for switches, start, run in S.explore(lambda ch: run_once(ch), bound + 1, max(budget // 2, 1), ("acq", "rel")):
@@ -718,8 +728,10 @@ def unit_conc(args):
                     if sig not in found:
                         found[sig] = dict(props=list(props), msg=msg, fam=fam.short, kind="conc", sig=sig, ops=None,
                                           extra=dict(prog=repr(prog), switches=list(switches), start=None, fam_index=fam_index))
+                if stuck(run):
+                    break
         n_line = 0
-        if nrand:
+        if nrand and not hung[0]:
             base = run_scheduled(ns, fam, prog, S.Forced(), line_level=True)
             npts = base.get("points", 0) or 1
             for i in range(nrand):
